@@ -598,13 +598,9 @@ pub fn deviations(toks: &[Tk]) -> Vec<Dev> {
             if class == "is" {
                 // X's / X're
                 if i > 0 && toks[i - 1].kw.is_none() && !toks[i - 1].s.ends_with('"') || i > 0 && toks[i - 1].kw == Some("it") {
-                    v.push(Dev::SuffixIs(i, 0));
-                    v.push(Dev::SuffixIs(i, 1));
-                    // after a word the suffix is recognised in any letter case
-                    if toks[i - 1].s.chars().last().map_or(false, |c| c.is_alphabetic()) {
-                        for k in 2..SUFFIXES.len() {
-                            v.push(Dev::SuffixIs(i, k));
-                        }
+                    // the suffix is a keyword: any letter case, after words and after literals alike
+                    for k in 0..SUFFIXES.len() {
+                        v.push(Dev::SuffixIs(i, k));
                     }
                 }
             }
